@@ -37,6 +37,12 @@ def chains(maxlen):
 
 
 def plan(tier, seed):
+    from mc import imporder
+
+    return _plan(tier, seed) + [imporder.phase(tier, 'pol')]
+
+
+def _plan(tier, seed):
     basic = []
     for kind in KINDS:
         for shape, angs in ANGLES.items():
